@@ -22,6 +22,9 @@ ANCHORS = [
     "sktime/regression/interval_based/_tsf.py", "sktime/utils/validation/__init__.py",
 ]
 RULE = (
+    "kind=refit/reparam: every program fitted on data A (and applied), then - optionally after "
+    "set_params to other valid parameters - refitted on data B must equal a fresh estimator with "
+    "those parameters fitted on B (classifiers: B has another label set). "
     "kind=apply: per estimator program (series transformers on inputs that trigger work - "
     "outlier, NaNs, seasonal -, panel transformers on nested / 3-D containers, forecaster menu, "
     "8 classifiers + regressor) every sequence of <=3 apply-type calls after fit (quick: all of "
@@ -83,7 +86,7 @@ P_PROGRAMS = ["pad", "trunc", "interp", "tab", "concat", "iseg", "rseg", "slide"
 F_PROGRAMS = fmenu.BASIC + [["es"], ["theta", 3]] + fmenu.COMPOSITES[:9]
 C_PROGRAMS = ["tsf", "rise", "stsf", "iboss", "boss", "cboss", "muse", "cens", "tsfr"]
 SITES = ["ens_fit", "stack_fit", "tsf_fit_proba", "tsfr", "stsf", "rise", "grid", "boss", "cboss",
-         "sfa", "fpe", "ets_auto"]
+         "sfa", "fpe", "ets_auto", "iboss_ties", "boss_ties"]
 
 
 def _build_s(spec):
@@ -177,6 +180,46 @@ def _build_c(name, rs=0, n_jobs=None):
     raise ValueError(name)
 
 
+# (family, program, parameters to set on the fitted estimator before refitting)
+REPARAM = [
+    ("s", ["opt", ["log"], False], {"passthrough": True}),
+    ("s", ["opt", ["log"], True], {"passthrough": False}),
+    ("s", ["deseason", 3, "additive"], {"sp": 2}),
+    ("s", ["deseason", 2, "additive"], {"model": "multiplicative"}),
+    ("s", ["detrend", 1], {"forecaster__degree": 2}),
+    ("s", ["boxcox"], {"method": "pearsonr"}),
+    ("s", ["hampel", 5], {"window_length": 3}),
+    ("s", ["imputer", "mean"], {"method": "median"}),
+    ("f", ["naive", "last"], {"strategy": "mean", "window_length": 3}),
+    ("f", ["naive", "mean", 1, 4], {"window_length": 2}),
+    ("f", ["naive", "last", 3], {"sp": 2}),
+    ("f", ["poly", 1], {"degree": 2}),
+    ("f", ["poly", 2], {"with_intercept": False}),
+    ("f", ["red", "recursive", 3, "lin"], {"window_length": 2}),
+    ("f", ["red", "direct", 3, "lin"], {"window_length": 4}),
+    ("f", ["red", "multioutput", 2, "lin"], {"window_length": 3}),
+    ("f", ["red", "dirrec", 2, "lin"], {"window_length": 3}),
+    ("f", ["ens", "mean", [["naive", "last"], ["poly", 1]]], {"aggfunc": "max", "m1__degree": 2}),
+    ("f", ["ttf", [["deseason", 3, "additive"]], ["naive", "drift"]], {"t0__sp": 2, "f__strategy": "last"}),
+    ("f", ["mux", [["naive", "last"], ["poly", 1], ["naive", "drift"]], 1], {"selected_forecaster": "m2"}),
+    ("f", ["theta", 3], {"sp": 1}),
+    ("p", "paa", {"num_intervals": 3}),
+    ("p", "iseg", {"intervals": 2}),
+    ("p", "slide", {"window_length": 3}),
+    ("p", "pad", {"pad_length": 40, "fill_value": 1}),
+    ("p", "trunc", {"lower": 1, "upper": 10}),
+    ("p", "interp", {"length": 7}),
+    ("p", "rseg", {"n_intervals": 2, "random_state": 5}),
+    ("p", "slope", {"num_intervals": 3}),
+    ("p", "pca", {"n_components": 2}),
+    ("c", "tsf", {"n_estimators": 3, "min_interval": 5}),
+    ("c", "tsfr", {"n_estimators": 3}),
+    ("c", "iboss", {"window_size": 10, "word_length": 6}),
+    ("c", "boss", {"max_ensemble_size": 2}),
+    ("c", "stsf", {"n_estimators": 2}),
+]
+
+
 def gen_cases(tier, seed):
     for i in range(len(S_PROGRAMS)):
         yield dict(kind="apply", fam="s", prog=i)
@@ -191,6 +234,18 @@ def gen_cases(tier, seed):
     for name in C_PROGRAMS + ["rseg", "rife", "imputer-random"]:
         for rs in (0, 1, 2):
             yield dict(kind="twin", prog=name, rs=rs)
+    # an estimator that was fitted before (on other data, possibly with other parameters) must
+    # behave like a fresh one with the same parameters fitted on the same data
+    for i in range(len(S_PROGRAMS)):
+        yield dict(kind="refit", fam="s", prog=i)
+    for name in P_PROGRAMS:
+        yield dict(kind="refit", fam="p", prog=name)
+    for i in range(len(F_PROGRAMS)):
+        yield dict(kind="refit", fam="f", prog=i)
+    for name in C_PROGRAMS:
+        yield dict(kind="refit", fam="c", prog=name)
+    for i in range(len(REPARAM)):
+        yield dict(kind="reparam", which=i)
     for site in SITES:
         # one case per deviating Parallel call (quick: the first 6 multi-task calls of the site)
         for cno in range(6 if tier == "quick" else 48):
@@ -305,6 +360,8 @@ def run_case(case):
         {"s": _apply_s, "p": _apply_p, "f": _apply_f, "c": _apply_c}[fam](case, res)
     elif k == "twin":
         _twin(case, res)
+    elif k in ("refit", "reparam"):
+        _refit(case, res)
     elif k == "order":
         _order(case, res)
     else:
@@ -436,6 +493,102 @@ def _apply_c(case, res):
                 other_fit=lambda: _build_c(name).fit(mk(Po), yv[::-1].copy()))
 
 
+def _refit_parts(fam, prog):
+    """-> (build(), fit1(est), fit2(est), apply(est) -> tuple of outputs)"""
+    if fam == "s":
+        base = prog[0].replace("-df", "")
+        df = prog[0].endswith("-df")
+
+        def data(n, scale, start):
+            z = _series(n, start=start, nan=base == "imputer", outlier=base == "hampel") * scale
+            return pd.DataFrame({"a": z, "b": z * 2.0 + 1.0}) if df else z
+
+        zA, zB = data(20, 1.0, 0), data(26, 1.7, 3)
+        return (lambda: _build_s(prog), lambda e: e.fit(zA.copy()), lambda e: e.fit(zB.copy()),
+                lambda e: (e.transform(zB.copy()), e.transform(zB.iloc[5:17].copy())))
+    if fam == "p":
+        ncol = 2 if prog in ("concat", "pad", "trunc", "interp", "tab", "dslope", "plateau",
+                             "s2s-cos", "s2p-mean") else 1
+        PA, PB, PC = _panel(6, ncol), _panel(9, ncol, shift=0.9) * 1.3, _panel(4, ncol, shift=2.0)
+        return (lambda: _build_p(prog), lambda e: e.fit(_nested(PA), np.array([0, 1] * 3)),
+                lambda e: e.fit(_nested(PB), np.array([0, 1, 1] * 3)),
+                lambda e: (e.transform(_nested(PC)),))
+    if fam == "f":
+        req = fmenu.needs_fh_at_fit(prog)
+        yA, yB = _series(18, start=2) * 0.7 + 5.0, _series(23, start=0)
+        fhA, fhB = ([1, 2], [1, 2, 3]) if req else (None, None)
+        return (lambda: fmenu.build(prog), lambda e: e.fit(yA.copy(), fh=fhA),
+                lambda e: e.fit(yB.copy(), fh=fhB),
+                lambda e: (e.predict() if req else e.predict([1, 2, 4]), e.cutoff))
+    ncol = 2 if prog in ("cens", "muse") else 1
+    PA, PB, PC = _panel(12, ncol), _panel(10, ncol, shift=0.8) * 1.2, _panel(5, ncol, shift=2.1)
+    if prog == "tsfr":
+        yA, yB = np.arange(12.0), np.arange(10.0)[::-1] * 0.5
+    else:
+        yA, yB = np.array(["a", "b", "c"] * 4), np.array(["c", "b"] * 5)  # other label set
+
+    def app(e):
+        out = [e.predict(_nested(PC))]
+        if prog != "tsfr":
+            out.append(e.predict_proba(_nested(PC)))
+            out.append(list(e.classes_))
+        return tuple(out)
+
+    return (lambda: _build_c(prog), lambda e: e.fit(_nested(PA), yA.copy()),
+            lambda e: e.fit(_nested(PB), yB.copy()), app)
+
+
+def _refit(case, res):
+    import joblib
+
+    if case["kind"] == "refit":
+        fam, prog, newp = case["fam"], case["prog"], None
+        if fam in ("s", "f"):
+            prog = (S_PROGRAMS if fam == "s" else F_PROGRAMS)[prog]
+    else:
+        fam, prog, newp = REPARAM[case["which"]]
+    tag = "%s:%s:%s" % (case["kind"], fam, prog if isinstance(prog, str) else prog[0] + (
+        ":" + str(prog[1]) if len(prog) > 1 and not isinstance(prog[1], list) else ""))
+    build, fit1, fit2, app = _refit_parts(fam, prog)
+    with joblib.parallel_backend("threading"):
+        def used():
+            e = build()
+            fit1(e)
+            app_try = call(app, e)  # apply once in between: leftovers of apply count as well
+            del app_try
+            if newp:
+                e.set_params(**newp)
+            fit2(e)
+            return app(e)
+
+        def fresh():
+            e = build()
+            if newp:
+                e.set_params(**newp)
+            fit2(e)
+            return app(e)
+
+        b = call(fresh)
+        if not b.ok:
+            res.outcome("refit:fresh-raises")
+            return
+        b2 = call(fresh)
+        if not b2.ok or not _eq(b.value, b2.value):
+            res.outcome("refit:nondeterministic")
+            return
+        a = call(used)
+    res.transitions += 3
+    res.states += 2
+    res.nt(tag)
+    res.outcome(case["kind"] + ":" + fam)
+    if not a.ok:
+        res.violate(tag + ":raises", "an estimator that was fitted before cannot be refitted "
+                    "where a fresh one can", observed=a.brief())
+    elif not _eq(a.value, b.value):
+        res.violate(tag + ":stale-state", "a refitted estimator differs from a fresh one with the "
+                    "same parameters fitted on the same data", expected=b.value, observed=a.value)
+
+
 def _twin(case, res):
     import joblib
 
@@ -540,6 +693,21 @@ def _site_thunk(site, nj=3):
         P = np.abs(_panel(4, 1)) + 1.0
         return lambda: FittedParamExtractor(ExponentialSmoothing(), ["initial_level"],
                                             n_jobs=nj).fit(_nested(P)).transform(_nested(P))
+    if site in ("iboss_ties", "boss_ties"):
+        # exact nearest-neighbour ties: the same series occurs in the training panel under
+        # different labels, and several test instances equal it (tie-breaking draws random numbers)
+        P = _panel(10, 1)
+        P[1] = P[0]
+        P[3] = P[2]
+        yv = np.array([0, 1] * 5)
+        T = np.stack([P[0], P[2], P[0], P[2], P[0], P[4]])
+        nm = "iboss" if site == "iboss_ties" else "boss"
+
+        def run_ties():
+            e = _build_c(nm, 0, nj).fit(_nested(P), yv.copy())
+            return (e.predict(_nested(T)), e.predict_proba(_nested(T)))
+
+        return run_ties
     name = {"tsf_fit_proba": "tsf", "tsfr": "tsfr", "stsf": "stsf", "rise": "rise", "boss": "boss",
             "cboss": "cboss"}[site]
     Pa, Pb, mk, yv = _cdata(name, "nested")
